@@ -320,6 +320,7 @@ Section Run.
         end
     | OpSeek id t p =>
         match lookup s id with
+        | Some (OWrap SOfb _ _) => (s, RUnsupported)            (* OfbCore is not seekable *)
         | Some (OWrap k key wst) =>
             match try_seek (kscore (cph key) k) t wst p with
             | Ok wst' => (update s id (OWrap k key wst'), ROk)
@@ -330,6 +331,7 @@ Section Run.
         end
     | OpPos id t =>
         match lookup s id with
+        | Some (OWrap SOfb _ _) => (s, RUnsupported)
         | Some (OWrap k key wst) => (s, of_outcome RNum (try_current_pos (kscore (cph key) k) t wst))
         | _ => (s, RUnsupported)
         end
